@@ -53,6 +53,16 @@ def parsex(prop, qb=150, tb=1500):
     }
 
 
+def crashx(qb=120, tb=1200):
+    return {
+        "name": "crashx", "dir": "crashx", "variant": "verif",
+        "cmd": ["{build}/harness/crashx/crashx", "--prop", "C04", "--tier", "{tier}", "--shard", "{shard}", "--nshards", "{nshards}",
+                "--out", "{out}", "--seed", "{seed}", "--budget", "{budget}"],
+        "shards": {"quick": 16, "thorough": 16},
+        "budget": {"quick": qb, "thorough": tb},
+    }
+
+
 A_SCHED = [
     "sequential consistency; atomics are not scheduling points (every conflicting pair of atomic accesses in these bodies is separated by a mutex operation)",
     "data races as such are invisible to a serialising scheduler",
@@ -71,6 +81,7 @@ CHECKS = {
     "C01": {"level": "model_checking", "parts": [enginex("C01")], "assumptions": A_ENGINE},
     "C02": {"level": "model_checking", "parts": [enginex("C02")], "assumptions": A_ENGINE},
     "C03": {"level": "model_checking", "parts": [enginex("C03")], "assumptions": A_ENGINE},
+    "C04": {"level": "fault_enumeration", "parts": [crashx()], "assumptions": []},
     "C05": {"level": "model_checking", "parts": [enginex("C05"), schedx("C05")], "assumptions": A_ENGINE + A_SCHED},
     "C06": {"level": "model_checking", "parts": [enginex("C06"), schedx("C06")], "assumptions": A_ENGINE + A_SCHED},
     "C07": {"level": "model_checking", "parts": [enginex("C07")], "assumptions": A_ENGINE},
